@@ -92,7 +92,7 @@ def reassembly_step(h1: bytes, h2: bytes, b1: bytes, b2: bytes, j: int, m: int) 
     """
     pre: len(h1) == 10 and len(h2) == 10
     pre: h1[5] <= 9 and h1[5] != 8 and h2[5] <= 9 and h2[5] != 8
-    pre: len(b1) <= 2 and len(b2) <= 1
+    pre: len(b1) <= 3 and len(b2) <= 2
     pre: 0 <= j < 14 + len(b1)
     pre: 1 <= m <= 28 + len(b1) + len(b2) - j
     post: _
@@ -211,11 +211,13 @@ OBLIGATIONS = [
          bounds="all headers with defined SType; body = concrete prefix 0/253/65533 + 0..3 symbolic bytes (length field bytes roll over)",
          outside="bodies with more than 3 symbolic bytes"),
     dict(name="reassembly_step", fn="reassembly_step", timeout=900,
-         parts=["j == %d" % j for j in range(16)],
+         parts={"quick": ["j == %d and len(b1) <= 2 and len(b2) <= 1" % j for j in range(16)],
+                "thorough": ["j == %d and len(b1) <= 2 and len(b2) <= 1" % j for j in range(16)]
+                + ["j == %d and (len(b1) == 3 or len(b2) == 2)" % j for j in range(17)]},
          functions=["Protocol._on_connection_data_received", "HsmsProtocol._process_received_data", "ByteQueue.append/wait_for/peek/pop",
                     "HsmsBlock.decode", "HsmsHeader.decode"],
          bounds="inductive step: any buffer state 'first j bytes of the pending frame' (every j: inside length, header, body) + one segment "
-                "of m bytes reaching at most to the end of the next frame; two frames with arbitrary headers, bodies <= 2 / <= 1 symbolic "
+                "of m bytes reaching at most to the end of the next frame; two frames with arbitrary headers, bodies <= 2 / <= 1 (thorough <= 3 / <= 2) symbolic "
                 "bytes; every j, every m (partitioned by j over the workers)",
          outside="bodies > 2 bytes; segments completing more than 2 frames; real thread races between append and the receiver"),
     dict(name="single_bytes", fn="single_bytes", timeout=300,
